@@ -52,6 +52,35 @@ class Ptr:
         return "Ptr(%s)" % (self.key,)
 
 
+class _Top:
+    """an unknown value (a parameter the evaluation is generic in): every operation on it is unknown again, a branch on it
+    is followed both ways (Machine.explore), a store through it is dropped (it points into the caller's memory)"""
+    def __repr__(self):
+        return "TOP"
+
+    def __deepcopy__(self, memo):
+        return self
+
+    def __copy__(self):
+        return self
+
+
+TOP = _Top()
+
+
+class StopPath(Exception):
+    def __init__(self, result=None):
+        Exception.__init__(self)
+        self.result = result
+
+
+class Fork(Exception):
+    """raised inside Frame.execute when a decision depends on an unknown value"""
+    def __init__(self, block, choices):
+        Exception.__init__(self)
+        self.block, self.choices = block, choices
+
+
 def cstring(p, limit=4096):
     """bytes of the NUL-terminated string a pointer points to"""
     out = []
@@ -74,7 +103,7 @@ def mkstring(s):
 
 
 def wrap(v, bits, signed):
-    if not isinstance(v, int) or not bits:
+    if v is TOP or not isinstance(v, int) or not bits:
         return v
     v &= (1 << bits) - 1
     if signed and v >= 1 << (bits - 1):
@@ -83,6 +112,8 @@ def wrap(v, bits, signed):
 
 
 def truth(v):
+    if v is TOP:
+        raise Stuck("truth value of an unknown")
     if isinstance(v, Ptr):
         return True
     if isinstance(v, (int, float)):
@@ -110,6 +141,12 @@ class Machine:
         self.max_steps = max_steps
         self.max_depth = max_depth
         self._globals = {}
+        self.exploring = False
+        self.follow = None        # when set: predicate(name) - library functions it rejects are not entered, their calls
+                                  # are logged and yield an unknown value
+        self.observer = None      # callable(kind, node, operands, frame); may raise StopPath(result)
+        self.forks = 0
+        self.max_forks = 400
 
     # ---- objects ------------------------------------------------------------------------
     def _from_json(self, v):
@@ -118,6 +155,8 @@ class Machine:
         if isinstance(v, dict):
             if set(v.keys()) == {"str"}:
                 return mkstring(v["str"]) if v["str"] is not None else 0
+            if set(v.keys()) == {"ref"}:
+                return ("fn", v["ref"])           # address of a function (or of an object the evaluation does not follow)
             if "f" in v and "text" in v and len(v) == 2:
                 return float(v["f"])
             return {k: self._from_json(x) for k, x in v.items()}
@@ -133,8 +172,10 @@ class Machine:
         if fn is not None:
             for tu in self.prog.tus:
                 for sl in tu.static_locals:
-                    if sl.get("name") == name and sl.get("fn") in (fn, None) and "init" in sl:
-                        init = sl
+                    if sl.get("name") == name and sl.get("function") in (fn, None):
+                        # a const table, or a mutable static: the latter lives as long as this machine (it carries state
+                        # from one evaluated call to the next, exactly as in the program)
+                        init = sl if "init" in sl else {"init": zero_object(self.prog, sl.get("type", {}))}
         if init is None:
             g = self.prog.global_var(name)
             if g is not None and g.get("const"):
@@ -164,10 +205,31 @@ class Machine:
             return r(self, args) if callable(r) else r
         if name in self.externs:
             return self.externs[name](self, args)
+        if name in _CTYPE or name in ("tolower", "toupper", "strlen", "__builtin_strlen", "strnlen", "BSD_strnlen", "strncmp",
+                                      "strncasecmp", "OUR_strncasecmp", "memcmp", "strcmp", "strcasecmp"):
+            if any(a is TOP for a in args):
+                return TOP
+        if name in ("memcpy", "memmove", "__builtin_memcpy", "__builtin_memmove", "memset", "__builtin_memset") and \
+                any(a is TOP for a in args):
+            if args[0] is TOP:
+                return TOP                      # writes into the caller's memory
+            raise Stuck("%s with unknown operands into a known object" % name)
         b = self._builtin(name, args)
         if b is not NotImplemented:
             return b
         f = self.prog.fn(name) if name else None
+        if self.follow is not None and (f is None or not self.follow(name)):
+            self.log.append((name, list(args)))
+            # whatever the function may write through a pointer to non-const becomes unknown
+            if f is not None:
+                for prm, a in zip(f.params, args):
+                    ct = prm["type"].get("ct") or ""
+                    if isinstance(a, Ptr) and prm["type"].get("tk") == "ptr" and not ct.startswith("const "):
+                        try:
+                            a.store(TOP)
+                        except Stuck:
+                            pass
+            return TOP
         if f is None:
             raise Stuck("call of %s, which has no body here" % name)
         if depth >= self.max_depth:
@@ -209,6 +271,41 @@ class Machine:
             for i, v in enumerate(vals):
                 d.add(i).store(v)
             return d
+        if name in ("free",):
+            return None
+        if name == "__ctype_b_loc":
+            # glibc's classification table behind isalpha() & co. (little-endian bit layout of <ctype.h>), C locale
+            if not hasattr(self, "_ctype"):
+                bit = {"upper": 1 << 8, "lower": 1 << 9, "alpha": 1 << 10, "digit": 1 << 11, "xdigit": 1 << 12, "space": 1 << 13,
+                       "print": 1 << 14, "graph": 1 << 15, "blank": 1 << 0, "cntrl": 1 << 1, "punct": 1 << 2, "alnum": 1 << 3}
+                tab = []
+                for c in range(-128, 256):
+                    m_ = 0
+                    if 0 <= c < 128:
+                        ch = chr(c)
+                        if "A" <= ch <= "Z":
+                            m_ |= bit["upper"] | bit["alpha"] | bit["alnum"]
+                        if "a" <= ch <= "z":
+                            m_ |= bit["lower"] | bit["alpha"] | bit["alnum"]
+                        if "0" <= ch <= "9":
+                            m_ |= bit["digit"] | bit["alnum"]
+                        if ch in "0123456789abcdefABCDEF":
+                            m_ |= bit["xdigit"]
+                        if c in (32, 9, 10, 11, 12, 13):
+                            m_ |= bit["space"]
+                        if c in (32, 9):
+                            m_ |= bit["blank"]
+                        if 32 <= c < 127:
+                            m_ |= bit["print"]
+                        if 33 <= c < 127:
+                            m_ |= bit["graph"]
+                            if not (m_ & bit["alnum"]):
+                                m_ |= bit["punct"]
+                        if c < 32 or c == 127:
+                            m_ |= bit["cntrl"]
+                    tab.append(m_)
+                self._ctype = Ptr([Ptr(tab, 128)], 0)
+            return self._ctype
         if name in ("memset", "__builtin_memset"):
             d, c, n = args
             for i in range(n):
@@ -224,6 +321,9 @@ class Machine:
             if a is None:
                 continue
             ty = p["type"]
+            if a is TOP:
+                fr.vars[p["name"]] = [TOP]
+                continue
             if ty.get("tk") in ("int", "bool", "enum") and isinstance(a, int):
                 a = int(bool(a)) if ty.get("tk") == "bool" else wrap(a, ty.get("bits"), ty.get("signed"))
             fr.vars[p["name"]] = [a]
@@ -235,12 +335,31 @@ class Frame:
         self.m, self.f, self.depth = m, f, depth
         self.vars = {}          # name -> box: [value] for scalars/structs, the list itself for arrays
         self.cache = {}
+        self.decided = {}       # condition node id -> polarity chosen at a fork on an unknown value
 
-    def box(self, name, node=None):
-        b = self.vars.get(name)
-        if b is None:
-            raise Stuck("read of %s, which has no value here" % name)
-        return b
+    def clone(self):
+        memo = {}
+        for obj in self.m._globals.values():
+            memo[id(obj)] = obj
+        q = Frame(self.m, self.f, self.depth)
+        q.vars, q.cache, q.decided = copy.deepcopy((self.vars, self.cache, self.decided), memo)
+        return q
+
+    def observe(self, kind, node, operands):
+        if self.m.observer is not None:
+            self.m.observer(kind, node, operands, self)
+
+    def cond_truth(self, x):
+        """truth of a condition operand: its value, or the way taken at the fork when the value is unknown"""
+        v = self.value_of(x)
+        if isinstance(v, Ptr) and x.get("lv"):
+            v = v.load()
+        if v is TOP:
+            for i in (x.id, x.strip().id, x.strip_all_casts().id):
+                if i in self.decided:
+                    return self.decided[i]
+            return None
+        return truth(v)
 
     # one CFG element, from the cached values of its operands
     def ev(self, n):
@@ -249,11 +368,9 @@ class Frame:
         if m.steps > m.max_steps:
             raise Stuck("step budget exhausted in %s" % self.f.name)
         k = n.k
-        c = self.cache
 
         def val(i):
-            x = n.child(i)
-            return self.value_of(x)
+            return self.value_of(n.child(i))
         if k in ("IntegerLiteral", "CharacterLiteral"):
             return n["val"]
         if k == "FloatingLiteral":
@@ -286,12 +403,19 @@ class Frame:
                     except Stuck:
                         b = self.vars[d["name"]] = [None]
                 return Ptr(b, 0)
+            if d["kind"] == "static_local":
+                b = self.vars.get(d["name"])
+                if b is None:
+                    b = self.vars[d["name"]] = m.global_object(d["name"], self.f.name)   # const tables only
+                return Ptr(b, 0)
             if d["kind"] == "global":
                 return Ptr(m.global_object(d["name"]), 0)
             raise Stuck("reference to %s" % d["name"])
         if k in ("ImplicitCastExpr", "CStyleCastExpr"):
             v = val(0)
             ck = n.get("ck")
+            if v is TOP:
+                return TOP
             if ck == "LValueToRValue":
                 if not isinstance(v, Ptr):
                     raise Stuck("load from a non-lvalue")
@@ -300,6 +424,8 @@ class Frame:
                     raise Stuck("read of an uninitialised object (%s)" % n.src)
                 if isinstance(r, (list,)) and n.get("tk") == "array":
                     return v
+                if isinstance(r, int) and n.get("tk") in ("int", "enum") and n.get("bits"):
+                    r = wrap(r, n.get("bits"), n.get("signed"))     # table values arrive as signed 64-bit numbers
                 return r
             if ck in ("ArrayToPointerDecay",):
                 if isinstance(v, Ptr):
@@ -316,9 +442,7 @@ class Frame:
                 return v
             if ck == "NullToPointer":
                 return 0
-            if ck == "IntegralToBoolean":
-                return int(truth(v))
-            if ck in ("PointerToBoolean",):
+            if ck in ("IntegralToBoolean", "PointerToBoolean"):
                 return int(truth(v))
             if ck == "IntegralCast" or (ck is None and n.get("tk") in ("int", "enum", "bool")):
                 if isinstance(v, float):
@@ -330,22 +454,19 @@ class Frame:
                 return float(v)
             if ck == "FloatingToIntegral":
                 return wrap(int(v), n.get("bits"), n.get("signed"))
-            if ck in ("FloatingCast", "IntegralToPointer", "PointerToIntegral"):
-                return v
             return v
         if k == "MemberExpr":
             b = val(0)
-            if n.get("arrow"):
-                if not isinstance(b, Ptr):
-                    raise Stuck("-> on a non-pointer")
-                obj = b.load()
-            else:
-                if not isinstance(b, Ptr):
-                    raise Stuck(". on a non-lvalue")
-                obj = b.load()
-                if obj is None:
-                    obj = {}
-                    b.store(obj)
+            if b is TOP:
+                return TOP
+            if not isinstance(b, Ptr):
+                raise Stuck("member access through a non-pointer")
+            obj = b.load()
+            if obj is TOP:
+                return TOP
+            if obj is None and not n.get("arrow"):
+                obj = {}
+                b.store(obj)
             if not isinstance(obj, dict):
                 raise Stuck("member of a non-struct")
             if n["member"] not in obj:
@@ -353,6 +474,8 @@ class Frame:
             return Ptr(obj, n["member"])
         if k == "ArraySubscriptExpr":
             a, i = val(0), val(1)
+            if a is TOP or i is TOP:
+                return TOP
             if isinstance(i, Ptr):
                 a, i = i, a
             if not isinstance(a, Ptr) or not isinstance(i, int):
@@ -360,28 +483,29 @@ class Frame:
             return a.add(i)
         if k == "UnaryOperator":
             op = n["op"]
-            if op == "&":
+            if op in ("&", "*"):
                 v = val(0)
-                if isinstance(v, Ptr):
+                if v is TOP or isinstance(v, Ptr):
                     return v
-                raise Stuck("address of a non-lvalue")
-            if op == "*":
-                v = val(0)
-                if not isinstance(v, Ptr):
-                    raise Stuck("dereference of a non-pointer")
-                return v
+                raise Stuck("%s on a non-lvalue / non-pointer" % op)
             if op in ("++", "--"):
                 lv = val(0)
+                if lv is TOP:
+                    return TOP
                 if not isinstance(lv, Ptr):
                     raise Stuck("++ on a non-lvalue")
                 old = lv.load()
                 if old is None:
                     raise Stuck("++ of an uninitialised object")
+                if old is TOP:
+                    return TOP
                 d = 1 if op == "++" else -1
                 new = old.add(d) if isinstance(old, Ptr) else wrap(old + d, n.get("bits"), n.get("signed"))
                 lv.store(new)
                 return old if n.get("postfix") else new
             v = val(0)
+            if v is TOP:
+                return TOP
             if op == "!":
                 return int(not truth(v))
             if not isinstance(v, (int, float)):
@@ -391,32 +515,43 @@ class Frame:
         if k == "BinaryOperator":
             op = n["op"]
             if op in ("&&", "||"):
-                l = self.value_of(n.child(0))
-                if op == "&&" and not truth(l):
+                l = self.cond_truth(n.child(0))
+                if l is None:
+                    return TOP
+                if op == "&&" and not l:
                     return 0
-                if op == "||" and truth(l):
+                if op == "||" and l:
                     return 1
-                return int(truth(self.value_of(n.child(1))))
+                r = self.cond_truth(n.child(1))
+                return TOP if r is None else int(r)
             if op == ",":
                 val(0)
                 return val(1)
             if op == "=":
                 lv, v = val(0), val(1)
+                if lv is TOP:
+                    self.observe("store-unknown", n, (lv, v))
+                    return v
                 if not isinstance(lv, Ptr):
                     raise Stuck("assignment to a non-lvalue")
                 if isinstance(v, dict):
                     v = copy.deepcopy(v)
+                self.observe("store", n, (lv, v))
                 lv.store(v)
                 return v
             a, b = val(0), val(1)
+            self.observe("arith", n, (a, b))
             return self.arith(op, a, b, n)
         if k == "CompoundAssignOperator":
             lv, b = val(0), val(1)
+            if lv is TOP:
+                return TOP
             if not isinstance(lv, Ptr):
                 raise Stuck("compound assignment to a non-lvalue")
             a = lv.load()
             if a is None:
                 raise Stuck("compound assignment to an uninitialised object")
+            self.observe("arith", n, (a, b))
             r = self.arith(n["op"][:-1], a, b, n)
             t = n.child(0)
             if isinstance(r, int):
@@ -424,19 +559,26 @@ class Frame:
             lv.store(r)
             return r
         if k == "ConditionalOperator":
-            return val(1) if truth(self.value_of(n.child(0))) else val(2)
+            c = self.cond_truth(n.child(0))
+            if c is None:
+                return TOP
+            return val(1) if c else val(2)
         if k == "CallExpr":
-            args = [self.rvalue(self.value_of(a)) for a in n.ch[1:]]
+            args = [self.value_of(a) for a in n.ch[1:]]
             name = n.get("callee")
             if name is None:
                 cal = self.value_of(n.child(0))
                 if isinstance(cal, tuple) and cal[0] == "fn":
                     name = cal[1]
+                elif cal is TOP:
+                    self.observe("call-unknown", n, args)
+                    return TOP
                 else:
                     raise Stuck("indirect call")
+            self.observe("call", n, args)
             return m.call(name, args, self.depth)
         if k == "InitListExpr":
-            vals = [self.rvalue(self.value_of(x)) for x in n.ch]
+            vals = [self.value_of(x) for x in n.ch]
             if n.get("tk") == "record":
                 rec = self.m.prog.records.get(n.get("record") or "") or {}
                 names = [f_["name"] for f_ in rec.get("fields", [])]
@@ -444,10 +586,9 @@ class Frame:
             return vals
         raise Stuck("cannot evaluate %s" % k)
 
-    def rvalue(self, v):
-        return v
-
     def arith(self, op, a, b, n):
+        if a is TOP or b is TOP:
+            return TOP
         if isinstance(a, Ptr) or isinstance(b, Ptr):
             if op == "+":
                 return a.add(b) if isinstance(a, Ptr) else b.add(a)
@@ -505,82 +646,181 @@ class Frame:
         return self.ev(x)
 
     def execute(self):
+        outs = self.execute_all(self.f.entry)
+        if len(outs) != 1:
+            raise Stuck("a decision in %s depends on an unknown value" % self.f.name)
+        v = outs[0][0]
+        if isinstance(v, tuple) and v and v[0] == "stopped":
+            raise StopPath(v[1])
+        return v
+
+    def execute_all(self, b):
+        """run from block b to the return; returns [(value, frame)] - more than one when a decision on an unknown value
+        forked the activation (outermost activation in exploring mode only)"""
         f = self.f
-        b = f.entry
-        while True:
-            for e in b.elems:
-                k = e.k
-                if k == "ReturnStmt":
-                    if e.ch:
-                        v = self.value_of(e.child(0))
-                        return copy.deepcopy(v) if isinstance(v, dict) else v
-                    return None
-                if k == "DeclStmt":
-                    for d in e.get("decls", []):
-                        ty = d.get("type", {})
-                        if d.get("static"):
-                            continue
-                        if "init" in d:
-                            v = self.value_of(f.nodes[d["init"]])
-                            if ty.get("tk") == "array":
-                                if isinstance(v, Ptr):          # char buf[] = "literal"
-                                    v = list(v.cont)
-                                n_ = ty.get("n")
-                                if isinstance(v, list) and n_ and len(v) < n_:
-                                    v = v + [0] * (n_ - len(v))
-                                self.vars[d["name"]] = v
-                            else:
-                                if isinstance(v, dict):
-                                    v = copy.deepcopy(v)
-                                elif isinstance(v, int) and ty.get("tk") in ("int", "enum"):
-                                    v = wrap(v, ty.get("bits"), ty.get("signed"))
-                                elif isinstance(v, int) and ty.get("tk") == "bool":
-                                    v = int(bool(v))
-                                self.vars[d["name"]] = [v]
-                        else:
-                            dv = self.m.default_value(ty)
-                            self.vars[d["name"]] = dv if ty.get("tk") == "array" else [dv]
+        try:
+            while True:
+                for e in b.elems:
+                    k = e.k
+                    if k == "ReturnStmt":
+                        if e.ch:
+                            v = self.value_of(e.child(0))
+                            return [(copy.deepcopy(v) if isinstance(v, dict) else v, self)]
+                        return [(None, self)]
+                    if k == "DeclStmt":
+                        self.declare(e)
+                        continue
+                    if k in ("BreakStmt", "ContinueStmt", "CompoundStmt", "NullStmt", "CaseStmt", "DefaultStmt", "LabelStmt", "GotoStmt"):
+                        continue
+                    # an expression element: (re)evaluate, overwriting what an earlier visit of this block cached
+                    self.cache[e.id] = self.ev(e)
+                succs = b.succs
+                if not succs:
+                    return [(None, self)]
+                tk = b.term_kind
+                if tk == "SwitchStmt":
+                    v = self.value_of(f.nodes[b.term["cond"]]) if b.term and "cond" in b.term else None
+                    if isinstance(v, Ptr):
+                        v = v.load()
+                    if v is TOP:
+                        return self.fork(b, [(s_, None) for s_ in succs if s_ is not None], None)
+                    nxt = dflt = ext = None
+                    for i, s_ in enumerate(succs):
+                        lab = f.edge_label(b, i)
+                        if lab[0] == "case" and lab[1] is not None and lab[1] <= v <= (lab[2] if lab[2] is not None else lab[1]):
+                            nxt = s_
+                        elif lab[0] == "default":
+                            dflt = s_
+                        elif lab[0] == "switch-exit":
+                            ext = s_
+                    b = nxt or dflt or ext
+                    if b is None:
+                        raise Stuck("switch without a target")
                     continue
-                if k in ("BreakStmt", "ContinueStmt", "CompoundStmt", "NullStmt", "CaseStmt", "DefaultStmt", "LabelStmt", "GotoStmt"):
+                if len(succs) == 2 and b.term and "cond" in b.term:
+                    # the terminator's own condition node (for `a && b` in a loop condition that is the whole conjunction,
+                    # which was evaluated as an element of this block from the operands actually visited)
+                    cn = f.nodes[b.term["cond"]]
+                    v = self.value_of(cn)
+                    if isinstance(v, Ptr) and cn.get("lv"):
+                        v = v.load()
+                    if v is TOP:
+                        t_ = self.cond_truth(cn)
+                        if t_ is None:
+                            return self.fork(b, [(succs[0], True), (succs[1], False)], cn)
+                        b = succs[0] if t_ else succs[1]
+                    else:
+                        b = succs[0] if truth(v) else succs[1]
+                    if b is None:
+                        raise Stuck("edge pruned by the CFG builder was taken")
                     continue
-                # an expression element: (re)evaluate, overwriting what an earlier visit of this block cached
-                self.cache[e.id] = self.ev(e)
-            succs = b.succs
-            if not succs:
-                return None
-            tk = b.term_kind
-            if tk == "SwitchStmt":
-                v = self.value_of(f.nodes[b.term["cond"]]) if b.term and "cond" in b.term else None
-                if isinstance(v, Ptr):
-                    v = v.load()
-                nxt = dflt = ext = None
-                for i, s_ in enumerate(succs):
-                    lab = f.edge_label(b, i)
-                    if lab[0] == "case" and lab[1] is not None and lab[1] <= v <= (lab[2] if lab[2] is not None else lab[1]):
-                        nxt = s_
-                    elif lab[0] == "default":
-                        dflt = s_
-                    elif lab[0] == "switch-exit":
-                        ext = s_
-                b = nxt or dflt or ext
-                if b is None:
-                    raise Stuck("switch without a target")
+                live = [s_ for s_ in succs if s_ is not None]
+                if not live:
+                    return [(None, self)]
+                b = live[0]
+        except StopPath as sp:
+            return [(("stopped", sp.result), self)]
+
+    def fork(self, b, choices, cn):
+        m = self.m
+        if not m.exploring or self.depth != 0:
+            raise Stuck("a decision in %s depends on an unknown value" % self.f.name)
+        out = []
+        for succ, pol in choices:
+            if succ is None:
                 continue
-            if len(succs) == 2 and b.term and "cond" in b.term:
-                # the terminator's own condition node (for `a && b` in a loop condition that is the whole conjunction, which
-                # was evaluated as an element of this block from the operands actually visited)
-                cn = f.nodes[b.term["cond"]]
-                v = self.value_of(cn)
-                if isinstance(v, Ptr) and cn.get("lv"):
-                    v = v.load()
-                b = succs[0] if truth(v) else succs[1]
-                if b is None:
-                    raise Stuck("edge pruned by the CFG builder was taken")
+            m.forks += 1
+            if m.forks > m.max_forks:
+                raise Stuck("too many paths over unknown values in %s" % self.f.name)
+            q = self.clone()
+            if cn is not None and pol is not None:
+                for i in (cn.id, cn.strip().id, cn.strip_all_casts().id):
+                    q.decided[i] = pol
+            out += q.execute_all(succ)
+        return out
+
+    def declare(self, e):
+        f = self.f
+        for d in e.get("decls", []):
+            ty = d.get("type", {})
+            if d.get("static"):
                 continue
-            live = [s_ for s_ in succs if s_ is not None]
-            if not live:
-                return None
-            b = live[0]
+            if "init" in d:
+                v = self.value_of(f.nodes[d["init"]])
+                if ty.get("tk") == "array":
+                    if isinstance(v, Ptr):          # char buf[] = "literal"
+                        v = list(v.cont)
+                    n_ = ty.get("n")
+                    if isinstance(v, list) and n_ and len(v) < n_:
+                        v = v + [0] * (n_ - len(v))
+                    self.vars[d["name"]] = v
+                else:
+                    if isinstance(v, dict):
+                        v = copy.deepcopy(v)
+                    elif isinstance(v, int) and ty.get("tk") in ("int", "enum"):
+                        v = wrap(v, ty.get("bits"), ty.get("signed"))
+                    elif isinstance(v, int) and ty.get("tk") == "bool":
+                        v = int(bool(v))
+                    self.vars[d["name"]] = [v]
+            else:
+                dv = self.m.default_value(ty)
+                self.vars[d["name"]] = dv if ty.get("tk") == "array" else [dv]
+
+
+def explore(prog, fname, args, observer=None, follow=None, **kw):
+    """all paths of `fname` under arguments some of which are TOP (unknown): a branch on an unknown value is followed both
+    ways (in the outermost activation only).  Returns [(returned value | ('stopped', result), frame)]."""
+    m = Machine(prog, **kw)
+    m.exploring = True
+    m.observer = observer
+    m.follow = follow
+    f = prog.fn(fname)
+    if f is None:
+        raise Stuck("no function %s" % fname)
+    f = f.pristine()
+    fr = Frame(m, f, 0)
+    for p, a in zip(f.params, args):
+        if a is None:
+            continue
+        fr.vars[p["name"]] = [a]
+    return fr.execute_all(f.entry), m
+
+
+def lex_on(prog, fname, data, extra=()):
+    """evaluate a token recogniser `fname(lex_state_t *, scpi_token_t *, ...)` on the byte string `data`:
+    returns (returned length, token dict, bytes consumed)"""
+    buf = [b if b < 128 else b - 256 for b in data] + [0]
+    state = {"buffer": Ptr(buf, 0), "pos": Ptr(buf, 0), "len": len(data)}
+    token = {}
+    m = Machine(prog, max_steps=100000)
+    f = prog.fn(fname)
+    if f is None:
+        raise Stuck("no function %s" % fname)
+    r = m.run(f, [Ptr([state], 0), Ptr([token], 0)] + list(extra))
+    pos = state["pos"]
+    return r, token, (pos.key if isinstance(pos, Ptr) and pos.cont is buf else None)
+
+
+def zero_object(prog, ty, depth=0):
+    """an object of the given type with every scalar 0 and every pointer NULL (what memset(0) / static storage gives)"""
+    tk = ty.get("tk")
+    if tk == "record" and depth < 6:
+        name = (ty.get("ct") or "").replace("const ", "").replace("struct ", "").replace("union ", "").strip()
+        rec = prog.records.get(name) or prog.records.get((ty.get("t") or "").replace("const ", "").strip())
+        if rec is None:
+            return {}
+        return {f["name"]: zero_object(prog, f["type"], depth + 1) for f in rec["fields"]}
+    if tk == "array":
+        n = ty.get("n") or 0
+        et = dict(ty)
+        ct = ty.get("ct") or ""
+        # element type: strip the last [n]
+        if "[" in ct:
+            ect = ct[:ct.rindex("[")].strip()
+            if ect.startswith("struct ") or ect.startswith("const struct "):
+                return [zero_object(prog, {"tk": "record", "ct": ect}, depth + 1) for _ in range(n)]
+        return [0] * n
+    return 0
 
 
 def call(prog, fname, args, **kw):
